@@ -11,6 +11,9 @@ Fixpoint lookup (t : list (str * bool)) (u : str) : option bool :=
   end.
 Definition reg_table : str -> option bool := lookup ts_table.
 
+(** strings the harness abbreviates: [(u k)] is the k-th entry of the regenerated pool *)
+Definition u (k : N) : str := nth (N.to_nat k) upool [].
+
 (** "1.2.840.10008.3.1.1.1", the DICOM application context name ([Default] of the options) *)
 Definition default_app_ctx : str := [49;46;50;46;56;52;48;46;49;48;48;48;56;46;51;46;49;46;49;46;49].
 
